@@ -273,6 +273,10 @@ def as_container(loads, kind):
         return loads.astype(np.float32)
     if kind == "series":
         return pd.Series(loads, index=pd.RangeIndex(3, 3 + len(loads)))
+    if kind == "negzero":
+        out = loads.copy()
+        out[out == 0] = -0.0
+        return out
     return loads
 
 
@@ -344,7 +348,7 @@ def generate(prop, rng, tier):
         tr = {"world": NAME, "levels": lv, "step": step, "law": rng.choice(["EN", "EN", "EN", "SB"]),
               "mat": rng.randrange(len(MATERIALS)), "bins": rng.choice([10, 20, 50]),
               "twin": None,
-              "container": rng.choice(["f64", "f64", "f64", "list", "i64", "i32", "i16", "series", "f32int"]),
+              "container": rng.choice(["f64", "f64", "f64", "list", "i64", "i32", "i16", "series", "f32int", "negzero"]),
               "peek": rng.choice(["none", "none", "before", "between", "both"])}
         if rng.random() < 0.3:
             # J3 twin: interior-only refinement, compared per pass with the base
